@@ -79,13 +79,16 @@ const (
 	c13MaxMs = int64(13569465600000) // 2400-01-01 (the static year table of the time theory ends in 2400)
 )
 
-func c13Setup(enable bool) *c13Env {
+func c13Setup(enable bool) *c13Env { return c13SetupCoef(enable, "0") }
+
+// c13SetupCoef: lo is the lower end of the reward coefficient's range (the upper end is 100).
+func c13SetupCoef(enable bool, lo string) *c13Env {
 	env := zz.NewEnv([]string{"coinomics"}, nil)
 	bank := &c13Bank{supply: zz.AnyAmount("supply", 100), bal: map[string]sdkmath.Int{}, minted: sdkmath.ZeroInt()}
 	st := c13Staking{bonded: zz.AnyAmount("bonded", 100)}
 	ps := zz.NewSubspace(env, "coinomics", types.ParamKeyTable)
 	k := Keeper{storeKey: env.Key("coinomics"), cdc: zz.Codec(), paramstore: ps, bankKeeper: bank, stakingKeeper: st, feeCollectorName: "fee_collector"}
-	p := types.Params{MintDenom: "aISLM", EnableCoinomics: enable, RewardCoefficient: zz.AnyDecRaw("rewardCoefficient", "0", "100000000000000000000")}
+	p := types.Params{MintDenom: "aISLM", EnableCoinomics: enable, RewardCoefficient: zz.AnyDecRaw("rewardCoefficient", lo, "100000000000000000000")}
 	nowMs := c13AnyBlockTime("nowMs", "year")
 	ctx := env.Ctx.WithBlockTime(time.UnixMilli(nowMs))
 	k.SetParams(ctx, p)
@@ -209,3 +212,25 @@ func VerifC13_Reactivation() {
 var _ = paramtypes.Subspace{}
 
 var errInsufficient = errors.New("insufficient funds")
+
+
+// VerifC13_ParamsAdmitMint: every reward coefficient that the module's own parameter validation accepts keeps the block
+// clock running: an enabled block with a recorded previous timestamp records its own timestamp and mints a non-negative
+// amount, so that the next block mints for exactly one interval. (A coefficient that makes the block return early leaves the
+// old timestamp in place; the first block after the coefficient is corrected then mints for the whole time in between.)
+func VerifC13_ParamsAdmitMint() {
+	e := c13SetupCoef(true, "-100000000000000000000")
+	zz.Assume(e.params.Validate() == nil)
+	zz.Assume(!e.prev.IsZero() && e.prev.LTE(sdkmath.NewInt(e.nowMs)))
+	zz.Assume(e.bank.supply.LT(e.max)) // away from the cap: that is VerifC13_Mint's subject
+	supply0 := e.bank.supply
+	e.k.EndBlocker(e.ctx)
+	minted := e.bank.supply.Sub(supply0)
+	zz.Assert(!minted.IsNegative(), "nothing is un-minted")
+	after := e.k.GetParams(e.ctx)
+	if after.EnableCoinomics {
+		zz.Assert(e.k.GetPrevBlockTS(e.ctx).Equal(sdkmath.NewInt(e.nowMs)), "with parameters accepted by the module's validation an enabled block records its timestamp")
+		zz.Reach("recorded")
+	}
+	zz.Reach("end")
+}
